@@ -53,6 +53,11 @@ Section C17.
     status_of (decrypt E key f) = true -> status_of (decrypt E key f') = false.
   Proof. exact (mic_change_rejected E). Qed.
 
+  Theorem C17_ext_mic_only_short_mic_rejected :
+    forall key f, mic_scope (f_lvl f) -> (7 <= length (gen_nonce f))%nat ->
+    length (recv_mic_only f) <> sp_M (params f) -> status_of (decrypt E key f) = false.
+  Proof. exact (short_mic_rejected_mic_only E E_length). Qed.
+
   (** The nonce is source ‖ counter ‖ security control when the 8-byte source is present
       (extended-nonce flag set); then the CCM length field has L = 2 bytes and AES.new accepts
       the nonce. *)
@@ -134,7 +139,7 @@ Section C17.
   (** the freshness table of a (key, sender) pair survives every management operation that does
       not remove that key; and the key set stays duplicate-free *)
   Theorem C17_nwk_mgmt_preserves_table :
-    forall hs m K a, (forall K', m = RemoveKey K' -> K' <> K) ->
+    forall hs m K a, (forall K', m = RemoveKey K' -> K' <> K) -> m <> ClearKeys ->
     stored_k (fst (apply_mgmt hs m)) K a = stored_k (fst hs) K a.
   Proof. exact mgmt_preserves_table. Qed.
 
@@ -183,6 +188,29 @@ Section C17.
   Theorem C17_instance_calls_stateless :
     forall key cs s, fst (run_calls E key s cs) = map (fresh_call E key) cs.
   Proof. exact (run_calls_stateless E). Qed.
+
+  (** Truncation.  The MIC comparison has a length condition: acceptance forces the received MIC to
+      have exactly M bytes, so a frame with fewer than M bytes after the security header — in
+      particular none at all (no payload, no MIC) — is rejected under every key. *)
+  Theorem C17_accepted_mic_length :
+    forall key f, in_scope (f_lvl f) -> nonce_ok f ->
+    status_of (decrypt E key f) = true -> length (recv_mic f) = sp_M (params f).
+  Proof. exact (accepted_mic_length E E_length). Qed.
+
+  Theorem C17_truncated_rejected :
+    forall key f, in_scope (f_lvl f) -> nonce_ok f ->
+    (length (f_data f) + length (f_mic f) < sp_M (params f))%nat -> status_of (decrypt E key f) = false.
+  Proof. exact (truncated_rejected E E_length). Qed.
+
+  (** The network layer's receive step authenticates with the key of the material that the
+      CURRENT nwkSecurityMaterialSet selects for the frame's sequence number (no key survives a
+      replacement of the material: with C17_nwk_no_unauthenticated_up_mgmt over histories that
+      replace the material under the same sequence number). *)
+  Theorem C17_nwk_accepts_under_current_key :
+    forall st f svc f' st',
+    nwk_step E st (Secured f) = (UpSecured svc f', st') ->
+    exists k m, kseq_of f = Some k /\ select k (n_mats st) = Some m /\ decrypt E (m_key m) f = Ok (f', true).
+  Proof. exact (nwk_accepts_under_current_key E). Qed.
 
   (** A REJECTED decryption leaves the packet object as it was (every level, every key), so one
       frame object can be tried under a ring of keys (ZigbeeDecryptor, the candidate keys of
